@@ -210,3 +210,144 @@ def compare(paths, naming, expected, names, constraint=None):
         if got != want:
             bad.append((env, got, want))
     return bad
+
+
+# ------------------------------------------------------------------------------------------
+# linear (affine) integer values per path
+# ------------------------------------------------------------------------------------------
+
+def _lin_add(a, b, sign=1):
+    out = dict(a)
+    for k, v in b.items():
+        out[k] = out.get(k, 0) + sign * v
+        if out[k] == 0 and k != 1:
+            del out[k]
+    return out
+
+
+def _int_of(o):
+    import re
+    if o["k"] != "const":
+        return None
+    m = re.match(r"^(?:const )?(-?\d+)_[ui](8|16|32|64|128|size)$", str(o.get("v")))
+    return int(m.group(1)) if m else None
+
+
+def extract_lin(f, symbol_of, const_closure=None, max_paths=512):
+    """Paths of a loop-free integer-valued function: list of (conds, linear form) where a
+    linear form is {1: const, symbol: coeff}.  `symbol_of(call terminator)` names a call
+    result as a symbol (or returns None: unsupported).  `const_closure(operand)` returns the
+    constant an `Option::map_or` closure evaluates to (or None)."""
+    paths = []
+
+    def val(env, o):
+        if o["k"] == "const":
+            c = _int_of(o)
+            return {1: c} if c is not None else None
+        p = o["p"]
+        pr = p.get("p", [])
+        v = env.get(p["l"])
+        if v is None:
+            return None
+        if not pr:
+            return v
+        if len(pr) == 1 and pr[0][0] == "f" and pr[0][1] == 0 and isinstance(v, tuple) and v[0] == "ovf":
+            return v[1]
+        return None
+
+    def run(b, env, conds, onpath):
+        if len(paths) > max_paths:
+            raise Unsupported("too many paths")
+        if b in onpath:
+            raise Unsupported("loop through bb%d" % b)
+        onpath = onpath | {b}
+        env = dict(env)
+        blk = f.blocks[b]
+        for i, s in enumerate(blk["s"]):
+            if s["k"] != "a" or s["lhs"].get("p"):
+                continue
+            l = s["lhs"]["l"]
+            rv = s["rv"]
+            v = None
+            if rv["k"] in ("use", "cast"):
+                v = val(env, rv["o"])
+            elif rv["k"] == "bin" and rv["op"] in ("Add", "AddWithOverflow", "Sub", "SubWithOverflow", "AddUnchecked", "SubUnchecked"):
+                x, y = val(env, rv["a"]), val(env, rv["b"])
+                if x is not None and y is not None and not isinstance(x, tuple) and not isinstance(y, tuple):
+                    r = _lin_add(x, y, 1 if rv["op"].startswith("Add") else -1)
+                    v = ("ovf", r) if rv["op"].endswith("WithOverflow") else r
+            elif rv["k"] == "bin" and rv["op"] in _CMP:
+                v = ("atom", Atom("cmp", b, rv["op"], [rv["a"], rv["b"]], stmt=(b, i)), False)
+            elif rv["k"] == "discr":
+                v = None
+            if v is None:
+                env.pop(l, None)
+            else:
+                env[l] = v
+        t = blk["t"]
+        k = t["k"]
+        if k == "return":
+            v = env.get(0)
+            if v is None or isinstance(v, tuple):
+                raise Unsupported("return value at bb%d is not a recognised integer expression" % b)
+            paths.append((conds, v))
+            return
+        if k in ("goto", "drop", "assert"):
+            return run(t["t"], env, conds, onpath)
+        if k == "call":
+            d = t["dest"]
+            nm = callee_names(t)[0]
+            if nm == "core::option::Option::map_or" and const_closure is not None:
+                dv = val(env, t["args"][1])
+                cv = const_closure(t["args"][2])
+                if dv is not None and cv is not None:
+                    at = Atom("call", b, "Option::is_some", [t["args"][0]], term=t)
+                    for some in (True, False):
+                        e2 = dict(env)
+                        e2[d["l"]] = {1: cv} if some else dv
+                        run(t["t"], e2, conds + [(at, some)], onpath)
+                    return
+            if not d.get("p"):
+                if str(f.locals[d["l"]]) == "bool":
+                    env[d["l"]] = ("atom", Atom("call", b, nm, t["args"], term=t), False)
+                else:
+                    sym = symbol_of(t)
+                    if sym is None:
+                        env.pop(d["l"], None)
+                    else:
+                        env[d["l"]] = {sym: 1}
+            if t.get("t") is None:
+                return
+            return run(t["t"], env, conds, onpath)
+        if k == "switch":
+            l = op_local(t["d"])
+            v = env.get(l) if l is not None else None
+            tg = [(int(x), y) for x, y in t["targets"]]
+            if isinstance(v, tuple) and v[0] == "atom" and str(f.locals[l]) == "bool":
+                zero = [y for x, y in tg if x == 0]
+                f_edge = zero[0] if zero else t["otherwise"]
+                ones = [y for x, y in tg if x == 1]
+                t_edge = ones[0] if ones else t["otherwise"]
+                atom, neg = v[1], v[2]
+                for valb, edge in ((True, t_edge), (False, f_edge)):
+                    run(edge, env, conds + [(atom, valb != neg)], onpath)
+                return
+            at = Atom("switch", b, "switch@bb%d" % b, [t["d"]])
+            for x, y in tg + [("otherwise", t["otherwise"])]:
+                if f.blocks[y]["t"]["k"] == "unreachable" and not f.blocks[y]["s"]:
+                    continue
+                run(y, env, conds + [(at, x)], onpath)
+            return
+        if k in ("unreachable", "resume", "abort"):
+            return
+        raise Unsupported("terminator %s at bb%d" % (k, b))
+
+    run(0, {}, [], frozenset())
+    return paths
+
+
+def evaluate_lin(paths, value_of):
+    for conds, res in paths:
+        if all(value_of(a) == v for a, v in conds):
+            return res
+    raise Unsupported("no path matches the valuation")
